@@ -35,11 +35,11 @@ ACC = ['accel_x', 'accel_y', 'accel_z']
 def case_strategy():
     return st.fixed_dictionaries({
         'lat0': st.sampled_from([50.0, -33.0, 2.0, -2.0, 80.0, -80.0, 20.0, -60.0, 84.8, -84.8]),        # the stated domain ends at 85
-        'lon0': st.sampled_from([10.0, -120.0, 179.0, -179.0, 0.5]),
+        'lon0': st.sampled_from([10.0, -120.0, 179.0, -179.0, 0.5, 179.9998, -179.9998]),     # the last two: the motion crosses the antimeridian
         'alt0': st.sampled_from([0.0, 500.0, 10000.0]),
         'speed': st.sampled_from([0.5, 5.0, 30.0, 100.0, 250.0]),
         'course': st.floats(0, 360),
-        'att_amp': st.sampled_from([2.0, 10.0, 30.0]),
+        'att_amp': st.sampled_from([2.0, 10.0, 30.0, 0.0]),      # 0: roll, pitch and heading held exactly constant while the vehicle moves
         'form': st.sampled_from(FORMS),
         'sensor_type': st.sampled_from(['rate', 'increment']),
         'T': st.sampled_from([20.0, 40.0]),
@@ -66,7 +66,7 @@ def design_for(case):
         'alt': (case['alt0'] + 300.0, rng.uniform(-2, 2), [min(va[2], 10.0) / wv[2]], [wv[2]], [rng.uniform(0, 6)]),
         'roll': (rng.uniform(-20, 20), 0.0, [aa * rng.uniform(0.3, 1), aa * 0.3], [rng.uniform(0.2, 1.0), rng.uniform(1.0, 2.0)], rng.uniform(0, 6, 2)),
         'pitch': (rng.uniform(-15, 15), 0.0, [min(aa, 25.0) * rng.uniform(0.3, 1), aa * 0.2], [rng.uniform(0.2, 1.0), rng.uniform(1.0, 2.0)], rng.uniform(0, 6, 2)),
-        'heading': (rng.uniform(-170, 170), rng.uniform(-3, 3), [aa * rng.uniform(0.3, 1)], [rng.uniform(0.1, 0.6)], [rng.uniform(0, 6)]),
+        'heading': (rng.uniform(-170, 170), rng.uniform(-3, 3) * (aa > 0), [aa * rng.uniform(0.3, 1)], [rng.uniform(0.1, 0.6)], [rng.uniform(0, 6)]),
     }
     return K.Design(p)
 
@@ -76,14 +76,21 @@ def synth(ctx, d, t, form, stype):
     ev = d.evaluate(t)
     rph = ev['rph'].copy()
     rph[:, 2] = (rph[:, 2] + 180) % 360 - 180
-    snap = (ev['lla'].copy(), rph.copy(), ev['V'].copy(), t.copy())
+    # positions are handed over in the standard range: a longitude that the design carries beyond +-180 is wrapped into
+    # [-180, 180) (the motion itself is smooth across the antimeridian); values inside the range are passed as they are
+    lla_in = ev['lla'].copy()
+    out = np.abs(lla_in[:, 1]) > 180
+    lla_in[out, 1] = (lla_in[out, 1] + 180) % 360 - 180
+    if out.any() and not out.all():
+        ctx.label('crosses_antimeridian')
+    snap = (lla_in.copy(), rph.copy(), ev['V'].copy(), t.copy())
     if form == 'lla+vel':
-        tr, imu = ctx.sut(sim.generate_imu, t, ev['lla'], rph, ev['V'], stype)
+        tr, imu = ctx.sut(sim.generate_imu, t, lla_in, rph, ev['V'], stype)
     elif form == 'lla':
-        tr, imu = ctx.sut(sim.generate_imu, t, ev['lla'], rph, None, stype)
+        tr, imu = ctx.sut(sim.generate_imu, t, lla_in, rph, None, stype)
     else:
-        tr, imu = ctx.sut(sim.generate_imu, t, ev['lla'][0], rph, ev['V'], stype)
-    ctx.check(np.array_equal(ev['lla'], snap[0]) and np.array_equal(rph, snap[1]) and np.array_equal(ev['V'], snap[2])
+        tr, imu = ctx.sut(sim.generate_imu, t, lla_in[0], rph, ev['V'], stype)
+    ctx.check(np.array_equal(lla_in, snap[0]) and np.array_equal(rph, snap[1]) and np.array_equal(ev['V'], snap[2])
               and np.array_equal(t, snap[3]), 'input_modified', '')
     ctx.check(len(tr) == len(t) and len(imu) == len(t) and np.array_equal(np.asarray(imu.index, float), t), 'table_shape', '')
     return ev, tr, imu
